@@ -332,9 +332,15 @@ def random_instance(rnd, family, stable=False):
     init_pos = rnd.choice([F(0), sig(rnd.uniform(-3, 3))])
     ops = [{'op': 'set_initial', 'pos': init_pos, 'spd': init_spd}, {'op': 'new_solver', 'sid': 1}]
 
+    elapsed = [F(0)]
+
     def run(sid, n, cont_unit=False):
-        # a continued run may use another time step (and another unit) than the run before it
+        # a continued run may use another time step (and another unit) than the run before it; now and then a step that is
+        # tiny against the time already simulated
         d = dt * rnd.choice([F(1), F(1), F(1, 2), F(1, 4), F(2), F(3, 2)]) if cont_unit else dt
+        if cont_unit and not stable and elapsed[0] > 0 and rnd.random() < 0.12:
+            d = sig(float(elapsed[0]) * rnd.choice([1e-5, 1e-6, 1e-8]))
+        elapsed[0] += d * n
         op = {'op': 'run', 'sid': sid, 'dt': d, 'T': d * n}
         if family in ('control', 'mixed', 'lock') and rnd.random() < (0.9 if family == 'control' else 0.5):
             if inst['ctrls'] and rnd.random() < 0.35:
@@ -346,8 +352,11 @@ def random_instance(rnd, family, stable=False):
                 inst['ctrls'].append(random_rules(rnd, elems, d, n))
             op['ctrl'] = len(inst['ctrls']) - 1
         if family in ('stop', 'mixed') and rnd.random() < (0.9 if family == 'stop' else 0.3):
-            inst['stops'].append(random_stop(rnd, elems, dt, n))
-            op['stop'] = len(inst['stops']) - 1
+            if inst['stops'] and rnd.random() < 0.4:
+                op['stop'] = len(inst['stops']) - 1          # the SAME StopCondition object as an earlier run
+            else:
+                inst['stops'].append(random_stop(rnd, elems, dt, n))
+                op['stop'] = len(inst['stops']) - 1
         if cont_unit:
             op['dt_unit'] = rnd.choice(TIME_UNITS)
             op['T_unit'] = rnd.choice(TIME_UNITS)
@@ -369,6 +378,9 @@ def random_instance(rnd, family, stable=False):
         return {'op': 'redeclare', 'i': i, 'arg': sig(rnd.uniform(0.4, 1))}
     if geared and rnd.random() < 0.3:
         ops.append(redeclare())                 # after the Solver was created, before its first run
+    if not stable and rnd.random() < (0.3 if family == 'lock' else 0.1):
+        # the user assigns the duty cycle before the run (it is what the first lock decision and, without a control, every instant sees)
+        ops.append({'op': 'set_pwm', 'v': rnd.choice([F(0), F(0), F(-1), F(1, 2), F(-1, 2), F(1, 50)])})
     ops.append(run(1, n1))
     r = rnd.random()
     sid = 1
@@ -380,6 +392,7 @@ def random_instance(rnd, family, stable=False):
             ops.append(run(1, rnd.randint(2, 8), cont_unit=True))
     if rnd.random() < 0.35:
         ops.append({'op': 'reset'})
+        elapsed[0] = F(0)
         if rnd.random() < 0.7:
             ops.append({'op': 'set_initial', 'pos': init_pos, 'spd': init_spd})
         if geared and rnd.random() < 0.3:
